@@ -1,4 +1,6 @@
 """C09 - grammar-transducer composition is relational composition."""
+from fractions import Fraction as Fr
+
 from rv.checks import common
 
 PROP = "C09"
@@ -30,7 +32,7 @@ def gates(tier):
         "min_decided": {"(cfg @ fst)(ys)": 1500 * k, "(fst @ cfg)(xs)": 800 * k, "(cfg @ xs).treesum()": 800 * k,
                         "cfg.truncate_length(n)(xs)": 800 * k, "(cfg @ acceptor)(xs)": 800 * k},
         "shapes": {c: 3 * k for c in ["eps_rule", "recursive", "eps_in", "eps_out", "eps:eps", "fst_cyclic", "fst_multi_initial",
-                                      "fst_multi_final", "sr:Q", "sr:Boolean", "sr:Real", "sr:MaxTimes", "nullable_start", "constructor-freshness", "truncate-on-composed"]},
+                                      "fst_multi_final", "sr:Q", "sr:Boolean", "sr:Real", "sr:MaxTimes", "nullable_start", "constructor-freshness", "truncate-on-composed", "scale:wide-rules-duplicated"]},
         "min_hashseeds": 2,
     }
 
@@ -44,13 +46,29 @@ def gen_case(rng, spec):
     if R == "Q":
         tmpl = "finite"
     g = GG.gen_grammar(rng, template=tmpl, max_nt=4, max_t=2, max_rules=8)
+    if rng.random() < 0.08:
+        # scale: bodies of 4-5 symbols (the composition instantiates a rule once per sequence of |body|+1 states), some of
+        # them listed twice, possibly with different weights
+        Ns = sorted({h for _, h, _ in g["rules"]})
+        wide = []
+        for _ in range(rng.randint(1, 2)):
+            body = [rng.choice(g["V"] + g["V"] + (Ns[1:] if R != "Q" or tmpl == "finite" else [])) for _ in range(rng.randint(4, 5))]
+            if tmpl == "finite":
+                body = [y for y in body if y in g["V"]] or [g["V"][0]] * 4
+            w = Fr(rng.randint(1, 3), 16)
+            wide.append([w, g["S"], body])
+            if rng.random() < 0.7:
+                wide.append([w if rng.random() < 0.6 else w / 2, g["S"], list(body)])
+        g = dict(g, rules=[[w / 2, h, b] for w, h, b in g["rules"]] + wide)
+        g["wide"] = True
     if R == "Q" and "finite_language" not in GG.analyse(g)["classes"]:
         R = "Float"
     t = GA.gen_fst(rng, max_states=3, A=sorted(g["V"]), B=["x", "y"], max_arcs=6)
     if R == "Q":
         t["arcs"] = [x for x in t["arcs"] if x[0] < x[2]]  # acyclic transducer: finite sums only
     m = GA.gen_wfsa(rng, max_states=3, alphabet=sorted(g["V"]), max_arcs=5, acyclic=(R == "Q"))
-    return {"g": {k: g[k] for k in ("S", "V", "rules")}, "t": t, "m": m, "R": R, "maxlen": 2 if spec.get("tier") == "quick" else 3}
+    return {"g": {k: g[k] for k in ("S", "V", "rules")}, "t": t, "m": m, "R": R, "maxlen": 2 if spec.get("tier") == "quick" else 3,
+            "wide": bool(g.get("wide"))}
 
 
 def run_case(case, ctx):
@@ -65,6 +83,8 @@ def run_case(case, ctx):
     g, t, R = case["g"], case["t"], case["R"]
     an = GG.analyse(g)
     cls = set(an["classes"]) | set(GA.classify_fst(t))
+    if case.get("wide"):
+        cls.add("scale:wide-rules" + ("-duplicated" if "duplicate_rule" in cls else ""))
     fp = codec.fingerprint(case)
     nontriv = bool({"eps_rule", "recursive"} & cls) and bool({"eps_in", "eps_out", "eps:eps"} & cls)
     ctx.case(fp, nontriv, sorted(cls) + [f"sr:{R}"])
